@@ -36,6 +36,10 @@ HAND = [
     "pragma circom 2.0.0;\ntemplate Inner(n) { signal input a; signal output b; var n = 2; b <-- a * n; b === a * 2; }\n"
     "template Outer() { signal input x; signal output y; component i = Inner(1); i.a <== x; y <== i.b; }\n"
     "template Third() { signal input p; signal input q; signal output r; r <-- p >> 1; p === r * 2; q === r * 2 + 1; }\n",
+    # several reads of never-assigned locals in sibling blocks: which one the SSA conversion reports must not depend on hash order
+    "pragma circom 2.0.0;\nfunction f(n) { var a[2]; if (n) { n = a[0]; } else { n = a[1]; } return n; }\n"
+    "function g(n) { var u; var w; for (var i = 0; i < 2; i++) { if (n) { n = u; } else { n = w + 1; } } if (n == 3) { return w; } return u; }\n"
+    "template T(n) { signal input in; signal output out; var a[2]; var t; if (n == 1) { t = a[0]; out <== in; } else { t = a[1]; out <== in * in; } }\n",
 ]
 
 
